@@ -112,7 +112,12 @@ func (g *condGen) F(d int) *Node {
 		n := g.r.Pick([]int{2, 5, 2})
 		xs := []*Node{A("error"), QS(c)}
 		for i := 0; i < n; i++ {
-			xs = append(xs, g.F(d-2))
+			if g.r.Chance(1, 5) {
+				// data taken out of a quoted literal: an unquoted list or symbol VALUE
+				xs = append(xs, Call("car", Q(L(PickNode(g.r, L(A("+"), I(1), I(2)), A("zz"), L(A("list"), I(4)), L(A("sim:probe"), Str("leak"), I(1)), I(5)), I(0)))))
+			} else {
+				xs = append(xs, g.F(d-2))
+			}
 		}
 		return L(xs...)
 	case 8:
@@ -164,7 +169,10 @@ func (g *condGen) handlerBind(d int) *Node {
 
 // H generates a handler expression.
 func (g *condGen) H(d int) *Node {
-	switch g.r.Pick([]int{10, 2, 2, 2, 1, 1}) {
+	switch g.r.Pick([]int{10, 2, 2, 2, 1, 1, 2}) {
+	case 6:
+		// a handler expression that does something before yielding the handler
+		return Call("progn", g.F(d-1), A("hh"))
 	case 0:
 		c, dd := fmt.Sprintf("c%d", g.symN), fmt.Sprintf("d%d", g.symN)
 		g.symN++
@@ -390,7 +398,19 @@ func (m *cmodel) eval(n *Node, env *menv) (mval, *mraise) {
 	args := n.List[1:]
 	switch head {
 	case "quote":
-		return mval{k: mSym, s: args[0].Atom}, nil
+		return quoteVal(args[0]), nil
+	case "car":
+		v, r := m.eval(args[0], env)
+		if r != nil {
+			return v, r
+		}
+		if v.k == mList && len(v.l) > 0 {
+			return v.l[0], nil
+		}
+		if v.k == mNil || v.k == mList {
+			return mval{}, nil
+		}
+		return mval{}, m.interpErr()
 	case "sim:fp":
 		v, r := m.eval(args[1], env)
 		if r != nil {
@@ -599,6 +619,31 @@ func (m *cmodel) eval(n *Node, env *menv) (mval, *mraise) {
 	return mval{}, m.interpErr()
 }
 
+// quoteVal is the value of (quote n): the datum itself.
+func quoteVal(n *Node) mval {
+	if !n.IsL {
+		if i, err := strconv.Atoi(n.Atom); err == nil {
+			return mval{k: mInt, i: i}
+		}
+		if strings.HasPrefix(n.Atom, "\"") {
+			s, _ := strconv.Unquote(n.Atom)
+			return mval{k: mStr, s: s}
+		}
+		return mval{k: mSym, s: n.Atom}
+	}
+	if len(n.List) == 0 {
+		return mval{}
+	}
+	if n.Head() == "quote" && len(n.List) == 2 {
+		return quoteVal(n.List[1])
+	}
+	out := mval{k: mList}
+	for _, c := range n.List {
+		out.l = append(out.l, quoteVal(c))
+	}
+	return out
+}
+
 func (m *cmodel) callFun(f *mfun, args []mval) (mval, *mraise) {
 	if f == nil {
 		return mval{}, m.interpErr()
@@ -746,6 +791,9 @@ func condValid(n *Node) bool {
 	isQuoted := func(x *Node) bool {
 		return x.IsL && len(x.List) == 2 && x.Head() == "quote" && !x.List[1].IsL
 	}
+	if head == "quote" {
+		return len(args) == 1
+	}
 	switch head {
 	case "sim:fp":
 		if len(args) != 2 || args[0].IsL {
@@ -757,6 +805,8 @@ func condValid(n *Node) bool {
 		return len(args) == 2 && isQuoted(args[0]) && condValid(args[1])
 	case "sim:snap", "rethrow":
 		return len(args) == 0
+	case "car":
+		return len(args) == 1 && args[0].IsL && args[0].Head() == "quote" && len(args[0].List) == 2
 	case "progn", "ignore-errors":
 		return len(args) >= 1 && all(args)
 	case "list":
